@@ -3,8 +3,13 @@ package props
 import (
 	"bytes"
 	"crypto"
+	"crypto/ecdsa"
+	"crypto/ed25519"
+	"crypto/elliptic"
 	"crypto/rand"
+	"crypto/rsa"
 	"fmt"
+	"math/big"
 
 	"github.com/veraison/psatoken"
 
@@ -132,8 +137,39 @@ func c02JudgeVia(c *mon.Ctx, class string, orig *signedTok, mutant []byte, pk cr
 	c.Violation("C02/tampered-verified/"+class+"/"+alg, "a modified token was decoded and Verify returned nil ("+what+"); the independent verifier rejects it", det)
 }
 
+// c02Malformed: Verify under a malformed key object; a panic is tolerated
+// (and counted), a nil error is not.
+func c02Malformed(c *mon.Ctx, A *signedTok, name string, pk crypto.PublicKey) {
+	for _, via := range []string{"decoded", "signing"} {
+		c.Eval()
+		c.Count("mutants:malformed-key:" + name)
+		var verr error
+		ran := false
+		pn, pv, _ := mon.Guard(func() {
+			ev := A.ev
+			if via == "decoded" {
+				var derr error
+				if ev, derr = psatoken.DecodeEvidenceFromCOSE(A.tok); derr != nil {
+					return
+				}
+			}
+			verr = ev.Verify(pk)
+			ran = true
+		})
+		switch {
+		case pn:
+			c.Count("outcome:malformed-key-panicked-below-the-library")
+			c.SetAdd("malformed_key_panics", name+": "+trunc(pv, 80))
+		case ran && verr == nil:
+			c.Violation("C02/verified-under-malformed-key/"+name+"/"+A.key.Name, "Verify returned nil for a key object that cannot be the signer's key ("+name+", "+via+" Evidence)", map[string]any{"token_hex": mon.Hex(A.tok)})
+		default:
+			c.Count("outcome:verify-rejected")
+		}
+	}
+}
+
 func runC02(c *mon.Ctx) {
-	c.Rule("for each of ES256/384/512, EdDSA, PS256/384/512 with fresh keys x valid claims-sets of both profiles and a P2 extension, the token produced by the real ValidateAndSign is (1) accepted unmodified under the signer's key (positive control), then attacked - each mutant once through a fresh DecodeEvidenceFromCOSE and once through ONE REUSED Evidence object that has just decoded and verified the original token - with: every single-bit flip; every truncation; 1-8 trailing bytes; splices of protected/payload/signature between two tokens (same key/other payload, other key, other algorithm); signature := random bytes (same / other length), zeros, empty, signature of another message; 2-8 random byte substitutions, random insertions and deletions; algorithm moved to the unprotected header with a signature that is valid for that layout; empty protected header; protected header without label 1; nil payload with a signature valid over the empty payload; and verification under every other key (same algorithm, other curve/type, nil, non-key values). Oracle: decode+Verify may only succeed if the independent reader finds payload, protected-header content and signature byte-identical to the signed token and the key is the signer's (NO-VERDICT, counted), or if the independent stdlib verifier itself finds the signature valid for that content and key; Verify must never succeed without protected alg / payload / signature. distinct_nontrivial = distinct (algorithm, profile, mutation class, position bucket) signatures")
+	c.Rule("for each of ES256/384/512, EdDSA, PS256/384/512 with fresh keys x valid claims-sets of both profiles and a P2 extension, the token produced by the real ValidateAndSign is (1) accepted unmodified under the signer's key (positive control), then attacked - each mutant once through a fresh DecodeEvidenceFromCOSE and once through ONE REUSED Evidence object that has just decoded and verified the original token - with: every single-bit flip; every truncation; 1-8 trailing bytes; splices of protected/payload/signature between two tokens (same key/other payload, other key, other algorithm); signature := random bytes (same / other length), zeros, empty, signature of another message; 2-8 random byte substitutions, random insertions and deletions; algorithm moved to the unprotected header with a signature that is valid for that layout; empty protected header; protected header without label 1; nil payload with a signature valid over the empty payload; the protected header re-serialised into other bytes of the same meaning (non-minimal label / value / map head, indefinite map, extra label, tag) with the original payload and signature; and verification under every other key (same algorithm, other curve/type, nil, non-key values) and under malformed key objects of the right Go type (empty / short / long Ed25519 key, zero-value and nil ECDSA / RSA keys; a panic below the library is counted, a nil error is a violation). Oracle: decode+Verify may only succeed if the independent reader finds payload, protected-header content and signature byte-identical to the signed token and the key is the signer's (NO-VERDICT, counted), or if the independent stdlib verifier itself finds the signature valid for that content and key; Verify must never succeed without protected alg / payload / signature. distinct_nontrivial = distinct (algorithm, profile, mutation class, position bucket) signatures")
 	if err := extprof.Register(extprof.ExtP2Name); err != nil {
 		c.Violation("harness/register", err.Error(), nil)
 		return
@@ -306,6 +342,31 @@ func runC02(c *mon.Ctx) {
 			c02Judge(c, "layout:"+l.name, nil, l.tok, k.Pub, true, nil)
 			c.Sig(base + "|layout|" + l.name)
 		}
+		// (7b) the protected header re-serialised into OTHER BYTES with the same
+		// meaning, original payload and signature: the signature covers the
+		// original bytes, so this must not verify
+		algv := coseAlgID[alg]
+		reser := []struct {
+			name string
+			prot []byte
+		}{
+			{"alg-value-non-minimal-1", refcbor.Encode(refcbor.MapOf(refcbor.I(1), refcbor.I(algv).WithArgW(1)))},
+			{"alg-value-non-minimal-2", refcbor.Encode(refcbor.MapOf(refcbor.I(1), refcbor.I(algv).WithArgW(2)))},
+			{"alg-value-non-minimal-8", refcbor.Encode(refcbor.MapOf(refcbor.I(1), refcbor.I(algv).WithArgW(8)))},
+			{"label-non-minimal", refcbor.Encode(refcbor.MapOf(refcbor.I(1).WithArgW(1), refcbor.I(algv)))},
+			{"map-head-non-minimal", refcbor.Encode(refcbor.MapOf(refcbor.I(1), refcbor.I(algv)).WithArgW(1))},
+			{"map-indefinite", refcbor.Encode(refcbor.MapOf(refcbor.I(1), refcbor.I(algv)).AsIndef())},
+			{"extra-label", refcbor.Encode(refcbor.MapOf(refcbor.I(1), refcbor.I(algv), refcbor.I(4), refcbor.Bstr([]byte("k"))))},
+			{"tagged-map", refcbor.Encode(refcbor.Tagged(55799, refcbor.MapOf(refcbor.I(1), refcbor.I(algv))))},
+			{"trailing-byte-inside-bstr", append(append([]byte{}, A.env.ProtectedBS...), 0x00)},
+		}
+		for _, r := range reser {
+			if bytes.Equal(r.prot, A.env.ProtectedBS) {
+				continue
+			}
+			c02Judge(c, "protected-reserialised:"+r.name, A, sign1Bytes(r.prot, nil, A.env.Payload, A.env.Signature), k.Pub, true, map[string]any{"protected_hex": mon.Hex(r.prot)})
+			c.Sig(base + "|protected-reserialised|" + r.name)
+		}
 		// (8) wrong-key matrix on the unmodified token
 		var others []struct {
 			name string
@@ -337,6 +398,21 @@ func runC02(c *mon.Ctx) {
 		for _, o := range others {
 			c02Judge(c, "wrong-key:"+o.name, A, A.tok, o.pk, false, nil)
 			c.Sig(base + "|wrong-key|" + o.name)
+		}
+		// malformed key OBJECTS of the right Go type: whatever happens (error, or a
+		// panic inside the standard library, which is counted but is not this
+		// property's business), Verify must not return nil
+		malformed := []struct {
+			name string
+			pk   crypto.PublicKey
+		}{
+			{"ed25519-empty", ed25519.PublicKey{}}, {"ed25519-31-bytes", ed25519.PublicKey(g.Bytes(31))}, {"ed25519-33-bytes", ed25519.PublicKey(g.Bytes(33))}, {"ed25519-nil", ed25519.PublicKey(nil)},
+			{"ecdsa-zero-value", &ecdsa.PublicKey{}}, {"ecdsa-curve-only", &ecdsa.PublicKey{Curve: elliptic.P256()}}, {"ecdsa-nil-pointer", (*ecdsa.PublicKey)(nil)},
+			{"rsa-zero-value", &rsa.PublicKey{}}, {"rsa-nil-pointer", (*rsa.PublicKey)(nil)}, {"rsa-tiny", &rsa.PublicKey{N: big.NewInt(3233), E: 17}},
+		}
+		for _, o := range malformed {
+			c02Malformed(c, A, o.name, o.pk)
+			c.Sig(base + "|malformed-key|" + o.name)
 		}
 	}
 	for _, alg := range keys.AlgNames {
